@@ -96,6 +96,23 @@ def prove(L, hyps, goal, budget_ms, use_cvc5=True, extra=(), find_models=False):
     if st != "unknown":
         return st, "z3", ms, s, why
     total = ms
+    if getattr(L, "E", None) is not None:
+        # nonlinear real arithmetic is sensitive to the solver's internal ordering: retry with other seeds before giving up
+        for seed in (7, 23, 101):
+            s2 = z3.Solver()
+            s2.set("timeout", int(min(budget_ms, 4000)))
+            s2.set("random_seed", seed)
+            z3.set_param("smt.random_seed", seed)
+            z3.set_param("nlsat.seed", seed)
+            for f in s.assertions():
+                s2.add(f)
+            t0 = time.time()
+            r = s2.check()
+            total += (time.time() - t0) * 1000
+            if r == z3.unsat:
+                return "unsat", f"z3(seed {seed})", total, s2, ""
+            if r == z3.sat:
+                return "sat", f"z3(seed {seed})", total, s2, ""
     if use_cvc5 and L.k is None:
         ans, ms2 = _cvc5_check(s, min(budget_ms, 6000))
         total += ms2
